@@ -127,6 +127,12 @@ func (sc *syncCase) run(keepData bool) (*syncResult, error) {
 		res.Prefix = "src/"
 	case sc.Form == "two":
 		sources = []string{"src/", "src2/"}
+	case sc.Form == "two-noslash":
+		// two directories whose names are prefixes of one another, named without trailing slash
+		sources = []string{"src", "src2"}
+	case strings.HasPrefix(sc.Form, "two-files:"):
+		// a file from each of the two prefix-named directories
+		sources = []string{"src/" + strings.TrimPrefix(sc.Form, "two-files:"), "src2/second-1"}
 	case strings.HasPrefix(sc.Form, "file:"):
 		sources = []string{"src/" + strings.TrimPrefix(sc.Form, "file:")}
 	case strings.HasPrefix(sc.Form, "subdir:"):
